@@ -226,6 +226,12 @@ func TestC17Rapid(t *testing.T) {
 	c := coll("C17")
 	c.rule(ruleC17)
 	var last *Replay
+	// rapid.Check ends the test goroutine on failure (FailNow): report from a deferred call
+	defer func() {
+		if last != nil {
+			violation(t, last)
+		}
+	}()
 	rapid.Check(t, func(rt *rapid.T) {
 		cs := c17Case{
 			Form:  rapid.SampledFrom(c17Forms).Draw(rt, "form"),
@@ -237,7 +243,4 @@ func TestC17Rapid(t *testing.T) {
 			rt.Fatalf("%s", rep.What)
 		}
 	})
-	if last != nil {
-		violation(t, last)
-	}
 }
